@@ -170,6 +170,7 @@ var c18 = gen.Register(&gen.Check[caseC18]{
 	},
 	Required: []string{"block>=n", "retry:zero", "retry:n", "fault:before", "fault:after", "chunked"},
 	Run: func(c caseC18, o *gen.Obs) error {
+		hostileCaller()
 		var stream []byte
 		var want *big.Int
 		goodEnd := 0
